@@ -3,8 +3,14 @@ package storechk
 
 import (
 	"bytes"
+	"encoding/json"
 	"fmt"
+	"io/ioutil"
+	"os"
+	"os/exec"
+	"path/filepath"
 	"sort"
+	"syscall"
 
 	dbm "github.com/tendermint/tm-db"
 
@@ -25,6 +31,7 @@ type CrashDB struct {
 	Ops     int
 	CrashAt int
 	Trace   []string
+	Kill    bool // die by SIGKILL instead of panicking (child processes working on a real on-disk database)
 }
 
 func (c *CrashDB) hit(kind string) {
@@ -33,6 +40,10 @@ func (c *CrashDB) hit(kind string) {
 		c.Trace = append(c.Trace, kind)
 	}
 	if c.CrashAt > 0 && c.Ops == c.CrashAt {
+		if c.Kill {
+			syscall.Kill(syscall.Getpid(), syscall.SIGKILL)
+			select {} // never returns: the signal is delivered while this goroutine is parked
+		}
 		panic(crashSentinel{c.Ops})
 	}
 }
@@ -80,11 +91,11 @@ type Op struct {
 }
 
 type MSHist struct {
-	NStores int     `json:"stores"`
+	NStores int       `json:"stores"`
 	Pruning *[2]int64 `json:"pruning"` // nil: zero value of the multistore (prune everything)
-	Lazy    bool    `json:"lazy"`
-	Commits [][]Op  `json:"commits"` // ops before each commit; Store == NStores addresses the transient store
-	Reload  []int   `json:"reload"`  // reload after these commit numbers (1-based)
+	Lazy    bool      `json:"lazy"`
+	Commits [][]Op    `json:"commits"` // ops before each commit; Store == NStores addresses the transient store
+	Reload  []int     `json:"reload"`  // reload after these commit numbers (1-based)
 	// ViaCache: the writes of a block go through rs.CacheMultiStore() and one Write() (as baseapp's ante does)
 	ViaCache bool `json:"via_cache,omitempty"`
 	// LateFrom > 0: the last IAVL store is only mounted by instances opened after that many commits
@@ -169,9 +180,9 @@ func GenMSHist(r *sim.Rand, quick bool) MSHist {
 }
 
 type msInst struct {
-	rs    *rootmulti.Store
-	keys  []stypes.StoreKey
-	tkey  *stypes.TransientStoreKey
+	rs   *rootmulti.Store
+	keys []stypes.StoreKey
+	tkey *stypes.TransientStoreKey
 }
 
 func openMS(db dbm.DB, h *MSHist) *msInst { return openMSAt(db, h, len(h.Commits)) }
@@ -346,8 +357,28 @@ func safely(fn func()) (perr interface{}) {
 }
 
 // RunC12 executes one history and judges durability / version readability.
-func RunC12(h *MSHist, rep Reporter) {
-	db := dbm.NewMemDB()
+func RunC12(h *MSHist, rep Reporter) { RunC12On(h, rep, false) }
+
+// RunC12On with disk: the database is GoLevelDB in a scratch directory, and every reload closes the handle and opens the
+// directory again (what a restarted process sees), instead of re-reading a shared in-memory database.
+func RunC12On(h *MSHist, rep Reporter, disk bool) {
+	var db dbm.DB = dbm.NewMemDB()
+	dir := ""
+	if disk {
+		var err error
+		dir, err = ioutil.TempDir("", "vc12disk")
+		if err != nil {
+			return
+		}
+		defer os.RemoveAll(dir)
+		ldb, err := dbm.NewGoLevelDB("c12", dir)
+		if err != nil {
+			return
+		}
+		db = ldb
+		defer func() { db.Close() }()
+		rep.Count("c12.disk_histories", 1)
+	}
 	in := openMSAt(db, h, 0)
 	if err := in.rs.LoadLatestVersion(); err != nil {
 		rep.Violate("C12", "initial-load", fmt.Sprintf("LoadLatestVersion on an empty database failed: %v", err))
@@ -395,6 +426,16 @@ func RunC12(h *MSHist, rep Reporter) {
 			rep.Count("c12.reloads", 1)
 			if h.LateFrom > 0 && ci+1 >= h.LateFrom && len(in.keys) < h.NStores {
 				rep.Count("c12.late_store_mounted", 1)
+			}
+			if disk {
+				db.Close()
+				ldb, err := dbm.NewGoLevelDB("c12", dir)
+				if err != nil {
+					rep.Violate("C12", "disk-database-unopenable", fmt.Sprintf("after Commit %d the database directory cannot be opened again: %v", v, err))
+					return
+				}
+				db = ldb
+				rep.Count("c12.disk_reopens", 1)
 			}
 			n := openMSAt(db, h, ci+1)
 			var err error
@@ -526,59 +567,182 @@ func RunC13(h *MSHist, rep Reporter) int {
 				class = "height>1"
 			}
 			where := fmt.Sprintf("crash before durable write %d/%d (%s) of Commit %d, %d stores, pruning %s", i, opsIn[v], what, v, h.NStores, pstr)
-			// the process is dead; a new one opens the surviving bytes
-			y := openMS(db, h)
-			var err error
-			if pp := safely(func() { err = y.rs.LoadLatestVersion() }); pp != nil {
-				err = fmt.Errorf("panic: %v", pp)
-			}
-			if err != nil {
-				kr := int64(0)
-				if h.Pruning != nil {
-					kr = h.Pruning[0]
-				}
-				rep.Violate("C13", fmt.Sprintf("reopen-error/keepRecent=%d/%s", kr, class), fmt.Sprintf("%s: reopening fails: %v", where, err))
-				rep.Count("c13.outcome.reopen_error", 1)
-				continue
-			}
-			lc := y.rs.LastCommitID()
-			switch {
-			case lc.Version == int64(v-1) && bytes.Equal(lc.Hash, cids[v-1].Hash):
-				rep.Count("c13.outcome.previous_version", 1)
-				if d := diffContent(versions[v-1], y.dump(h)); d != "" {
-					rep.Violate("C13", "mixture/"+class, fmt.Sprintf("%s: reopened at version %d but content is not that version: %s", where, v-1, d))
-					continue
-				}
-			case lc.Version == int64(v) && bytes.Equal(lc.Hash, cids[v].Hash):
-				rep.Count("c13.outcome.new_version", 1)
-				if d := diffContent(versions[v], y.dump(h)); d != "" {
-					rep.Violate("C13", "mixture/"+class, fmt.Sprintf("%s: reopened at version %d but content is not that version: %s", where, v, d))
-				}
-				continue
-			default:
-				rep.Violate("C13", "reopen-wrong-commitid/"+class, fmt.Sprintf("%s: reopened store reports %v; committed: previous %v new %v", where, lc, cids[v-1], cids[v]))
-				continue
-			}
-			// re-execute the interrupted block
-			y.apply(h.Commits[v-1], h)
-			var cid stypes.CommitID
-			if pp := safely(func() { cid = y.rs.Commit() }); pp != nil {
-				rep.Violate("C13", "replay-commit-panic/"+class, fmt.Sprintf("%s: re-executing the block panics in Commit: %v", where, pp))
-				continue
-			}
-			if cid.Version != int64(v) || !bytes.Equal(cid.Hash, cids[v].Hash) {
-				rep.Violate("C13", "replay-hash-differs/"+class, fmt.Sprintf("%s: re-executed block commits %v, the uninterrupted run committed %v", where, cid, cids[v]))
-				continue
-			}
-			z := openMS(db, h)
-			if err := z.rs.LoadLatestVersion(); err != nil {
-				rep.Violate("C13", "reopen-after-replay/"+class, fmt.Sprintf("%s: reopening after the replayed commit fails: %v", where, err))
-				continue
-			}
-			if d := diffContent(versions[v], z.dump(h)); d != "" {
-				rep.Violate("C13", "content-after-replay/"+class, fmt.Sprintf("%s: after replay: %s", where, d))
+			judgeCrash(db, h, v, where, class, versions, cids, rep)
+		}
+	}
+	return points
+}
+
+// judgeCrash: the process died inside Commit number v; db holds the surviving bytes. A new instance must open at
+// version v-1 or v (whole, with the committed hash), and re-executing the block must reproduce the uninterrupted hash.
+func judgeCrash(db dbm.DB, h *MSHist, v int, where, class string, versions []content, cids []stypes.CommitID, rep Reporter) {
+	// the process is dead; a new one opens the surviving bytes
+	y := openMS(db, h)
+	var err error
+	if pp := safely(func() { err = y.rs.LoadLatestVersion() }); pp != nil {
+		err = fmt.Errorf("panic: %v", pp)
+	}
+	if err != nil {
+		kr := int64(0)
+		if h.Pruning != nil {
+			kr = h.Pruning[0]
+		}
+		rep.Violate("C13", fmt.Sprintf("reopen-error/keepRecent=%d/%s", kr, class), fmt.Sprintf("%s: reopening fails: %v", where, err))
+		rep.Count("c13.outcome.reopen_error", 1)
+		return
+	}
+	lc := y.rs.LastCommitID()
+	switch {
+	case lc.Version == int64(v-1) && bytes.Equal(lc.Hash, cids[v-1].Hash):
+		rep.Count("c13.outcome.previous_version", 1)
+		if d := diffContent(versions[v-1], y.dump(h)); d != "" {
+			rep.Violate("C13", "mixture/"+class, fmt.Sprintf("%s: reopened at version %d but content is not that version: %s", where, v-1, d))
+			return
+		}
+	case lc.Version == int64(v) && bytes.Equal(lc.Hash, cids[v].Hash):
+		rep.Count("c13.outcome.new_version", 1)
+		if d := diffContent(versions[v], y.dump(h)); d != "" {
+			rep.Violate("C13", "mixture/"+class, fmt.Sprintf("%s: reopened at version %d but content is not that version: %s", where, v, d))
+		}
+		return
+	default:
+		rep.Violate("C13", "reopen-wrong-commitid/"+class, fmt.Sprintf("%s: reopened store reports %v; committed: previous %v new %v", where, lc, cids[v-1], cids[v]))
+		return
+	}
+	// re-execute the interrupted block
+	y.apply(h.Commits[v-1], h)
+	var cid stypes.CommitID
+	if pp := safely(func() { cid = y.rs.Commit() }); pp != nil {
+		rep.Violate("C13", "replay-commit-panic/"+class, fmt.Sprintf("%s: re-executing the block panics in Commit: %v", where, pp))
+		return
+	}
+	if cid.Version != int64(v) || !bytes.Equal(cid.Hash, cids[v].Hash) {
+		rep.Violate("C13", "replay-hash-differs/"+class, fmt.Sprintf("%s: re-executed block commits %v, the uninterrupted run committed %v", where, cid, cids[v]))
+		return
+	}
+	z := openMS(db, h)
+	if err := z.rs.LoadLatestVersion(); err != nil {
+		rep.Violate("C13", "reopen-after-replay/"+class, fmt.Sprintf("%s: reopening after the replayed commit fails: %v", where, err))
+		return
+	}
+	if d := diffContent(versions[v], z.dump(h)); d != "" {
+		rep.Violate("C13", "content-after-replay/"+class, fmt.Sprintf("%s: after replay: %s", where, d))
+	}
+}
+
+// ---- C13 on a real on-disk database, with real process death -------------------------------------
+
+// C13Child is the body of the child process: open GoLevelDB in dir, run commits 1..v-1, apply block v and die by
+// SIGKILL right before the i-th durable write of its Commit. Exits 3 if the write is never reached.
+func C13Child(histFile, dir string, v, i int) {
+	raw, err := ioutil.ReadFile(histFile)
+	if err != nil {
+		os.Exit(4)
+	}
+	var h MSHist
+	if json.Unmarshal(raw, &h) != nil {
+		os.Exit(4)
+	}
+	ldb, err := dbm.NewGoLevelDB("c13", dir)
+	if err != nil {
+		os.Exit(5)
+	}
+	c := &CrashDB{DB: ldb, Kill: true}
+	x := openMS(c, &h)
+	if err := x.rs.LoadLatestVersion(); err != nil {
+		os.Exit(5)
+	}
+	for k := 1; k < v; k++ {
+		x.apply(h.Commits[k-1], &h)
+		x.rs.Commit()
+	}
+	x.apply(h.Commits[v-1], &h)
+	c.Ops, c.CrashAt = 0, i
+	x.rs.Commit()
+	os.Exit(3)
+}
+
+// RunC13Disk: the same judgement as RunC13, but the interrupted Commit runs in a child process on GoLevelDB and the
+// process is killed (SIGKILL) at the chosen durable write; the parent then opens the directory. Returns crash points explored.
+func RunC13Disk(h *MSHist, r *sim.Rand, exe string, perHist int, rep Reporter) int {
+	pstr := pruneStr(h.Pruning)
+	ref := dbm.NewMemDB()
+	cdb := &CrashDB{DB: ref}
+	in := openMS(cdb, h)
+	if err := in.rs.LoadLatestVersion(); err != nil {
+		return 0
+	}
+	model := make(content, h.NStores)
+	for i := range model {
+		model[i] = map[string]string{}
+	}
+	versions := []content{cloneContent(model)}
+	cids := []stypes.CommitID{{}}
+	opsIn := []int{0}
+	for _, ops := range h.Commits {
+		in.apply(ops, h)
+		in.applyModel(model, ops, h)
+		before := cdb.Ops
+		var cid stypes.CommitID
+		if p := safely(func() { cid = in.rs.Commit() }); p != nil {
+			return 0
+		}
+		opsIn = append(opsIn, cdb.Ops-before)
+		versions = append(versions, cloneContent(model))
+		cids = append(cids, cid)
+	}
+	base, err := ioutil.TempDir("", "vc13disk")
+	if err != nil {
+		return 0
+	}
+	defer os.RemoveAll(base)
+	hf := filepath.Join(base, "hist.json")
+	bz, _ := json.Marshal(h)
+	if ioutil.WriteFile(hf, bz, 0600) != nil {
+		return 0
+	}
+	points := 0
+	for n := 0; n < perHist; n++ {
+		v := 1 + r.Intn(len(h.Commits))
+		if n == 0 {
+			v = 1
+		}
+		if opsIn[v] == 0 {
+			continue
+		}
+		i := 1 + r.Intn(opsIn[v])
+		if n%3 == 1 {
+			i = opsIn[v] // the last write: the commit-info flush
+		}
+		dir := filepath.Join(base, fmt.Sprintf("db%d", n))
+		os.MkdirAll(dir, 0700)
+		cmd := exec.Command(exe, "--c13child", hf, dir, fmt.Sprint(v), fmt.Sprint(i))
+		err := cmd.Run()
+		killed := false
+		if ee, ok := err.(*exec.ExitError); ok {
+			if ws, ok := ee.Sys().(syscall.WaitStatus); ok && ws.Signaled() && ws.Signal() == syscall.SIGKILL {
+				killed = true
 			}
 		}
+		if !killed {
+			rep.Violate("C13", "harness-child-not-killed", fmt.Sprintf("child for commit %d write %d ended with %v instead of SIGKILL", v, i, err))
+			continue
+		}
+		points++
+		rep.Count("c13.disk.crash_points", 1)
+		class := fmt.Sprintf("height=%d", v)
+		if v > 1 {
+			class = "height>1"
+		}
+		where := fmt.Sprintf("process killed (SIGKILL) before durable write %d/%d of Commit %d on GoLevelDB, %d stores, pruning %s", i, opsIn[v], v, h.NStores, pstr)
+		ldb, err := dbm.NewGoLevelDB("c13", dir)
+		if err != nil {
+			rep.Violate("C13", "disk-database-unopenable/"+class, fmt.Sprintf("%s: the database directory cannot be opened again: %v", where, err))
+			continue
+		}
+		judgeCrash(ldb, h, v, where, class, versions, cids, rep)
+		ldb.Close()
+		os.RemoveAll(dir)
 	}
 	return points
 }
